@@ -610,12 +610,12 @@ class Prop:
             if not np.all(np.isfinite(a)):
                 return False, "non-finite result %s, expected %s" % (a.tolist()[:4], b.tolist()[:4])
             err = float(np.max(np.abs(a - b)))
-            if err > tol * scale:
+            if not (err <= tol * scale):          # NaN-safe
                 return False, "value differs from the dense definition by %g (got %s, expected %s)" % (
                     err, a.tolist()[:4], b.tolist()[:4])
         if case["op"] == "dist":
             r = np.array(res["rev"], dtype=np.float64)
-            if not np.all(np.isfinite(r)) or float(np.max(np.abs(r - b))) > tol * scale:
+            if r.shape != b.shape or not np.all(np.isfinite(r)) or not (float(np.max(np.abs(r - b))) <= tol * scale):
                 return False, "dist is not symmetric: dist(b,a)=%s, dense %s" % (r.tolist(), b.tolist())
         return True, ""
 
